@@ -58,8 +58,14 @@ def gen(tier, seed):
         U, p = v["U"], v["p"]
         if tier == "quick" and v["kind"] == "uniform" and rnd.random() < 0.5:
             continue
+        P = rand_points(rnd, npts_of(U, p), 1)
+        if rnd.random() < 0.4:
+            # sparse control points: runs of zeros with one or two non-zero entries (single basis functions, spans on
+            # which the curve vanishes identically)
+            keep = set(rnd.sample(range(len(P)), min(len(P), rnd.randint(1, 2))))
+            P = [pt if i in keep else [F(0)] for i, pt in enumerate(P)]
         cases.append({"k": "integ", "U": fsl(U), "p": p, "kind": v["kind"], "mults": v["mults"],
-                      "P": pts_json(rand_points(rnd, npts_of(U, p), 1)),
+                      "P": pts_json(P),
                       "closed": p >= 1 and all(m <= p for m in v["mults"])})
     return cases
 
@@ -123,13 +129,14 @@ def impl(case):
                 bad.append([method, nn, val, float(exact)])
         except Exception as e:  # noqa: BLE001
             bad.append([method, nn, type(e).__name__])
-    if p == 1 and all(m <= 1 for m in case["mults"]):
-        # polyline in the plane (float data): Integrate.lenght is the sum of the segment lengths
+    if p == 1:
+        # polyline in the plane (float data): Integrate.lenght is the sum of the segment lengths; a double interior knot
+        # cuts the polyline into separate pieces - the jump between them is not part of the curve
         try:
             pts = [np.array([float(P[i]), float((i * 7) % 5 - 2)]) for i in range(len(P))]
             poly = Curve([float(u) for u in U], pts)
             ln = float(Integrate.lenght(poly))
-            want = sum(float(np.linalg.norm(b - a)) for a, b in zip(pts[:-1], pts[1:]))
+            want = sum(float(np.linalg.norm(pts[i + 1] - pts[i])) for i in range(len(pts) - 1) if U[i + 1] < U[i + 2])
             if abs(ln - want) > 1e-9 * max(1.0, want):
                 bad.append(["lenght", ln, want])
         except Exception as e:  # noqa: BLE001
